@@ -133,11 +133,12 @@ def execute(stim):
     def request(s):
         ch = cfg['chain'][s - 1]
         if not ch['on'] or not seen().get('chain', 0):
-            return
+            return False
         fsm = holder['fsm']
         et = edzed.Goto(f's{ch["goto"]}') if ch['goto'] else f'e{ch["e"]}'
         for _ in range(2 if ch['double'] else 1):
             fsm.event(et, tag=ch['tag'], chain=ch['prop'], cond=1, condf=1)
+        return True
 
     def mk_cond(e, f):
         def cond(*_self):
@@ -149,8 +150,9 @@ def execute(stim):
     def mk_enter(s, f, do_request):
         def enter(*_self):
             rec('enter', s, f, seen().get('tag', 0))
-            if do_request:
-                request(s)
+            if do_request and request(s):
+                # event() returned: this action must still see the data of its own event
+                rec('after', s, f, seen().get('tag', 0))
         return enter
 
     def mk_exit(s, f):
